@@ -651,7 +651,7 @@ def corpus():
                   [None, "i", None, [["tn2", META, None, []], [None, "a", None, []]]]]
         for frag in (None, "inline", "spread"):
             out.append(_base(config, sel=tn_sel, lens={"l": 2}, n=1, k=2, stacking="tracer", frag=frag,
-                             deferred=["Query.o"] if config in DEFERRED_CFG else []))
+                             max_orders=30, deferred=["Query.o"] if config in DEFERRED_CFG else []))
         out.append(_base(config, op="mutation", sel=[[None, META, None, []], [None, "a", None, []],
                                                      [None, "o", None, [[None, META, None, []]]]], n=2))
         out.append(_base(config, op="mutation", sel=[[None, "a", None, []], [None, "b", None, []]],
@@ -783,7 +783,7 @@ def generate(rng, tier):
                 cases.append(_base(config, kind=kind, as_text=as_text, k=k, stacking=st,
                                    n=rng.choice([0, 2]), mw_async=rng.random() < 0.5, **extra))
     n_block = 200 if quick else 1200
-    n_def = 110 if quick else 320
+    n_def = 85 if quick else 280
     for config in ("blocking", "generic"):
         for _ in range(n_block):
             cases.append(_gen_exec(rng, config, 0, 1))
@@ -791,7 +791,7 @@ def generate(rng, tier):
         for _ in range(n_def):
             cases.append(_gen_exec(rng, config, rng.choice([2, 3, 4, 5]), 120))
         # all orders of a few larger operations
-        for _ in range(4 if quick else 10):
+        for _ in range(3 if quick else 8):
             cases.append(_gen_exec(rng, config, 6, 120 if quick else 720))
     if not quick:
         flat6 = [[None, f, None, []] for f in ("a", "b", "c")] + [["a2", "a", None, []], ["b2", "b", None, []],
